@@ -1,5 +1,5 @@
 SPECIFICATION TSpec
-CONSTANT MaxSubs = 40
+CONSTANT MaxSubs = 120
 CONSTANT Handles = {"h1", "h2", "h3", "h4"}
 CONSTANT Extra = {"x1", "x2"}
 CONSTANT Scripts <- AnyScript
